@@ -451,6 +451,8 @@ func (t *tfunc) call(v *ast.CallExpr, want types.Type) string {
 	info := t.info()
 	kind, key, recvArg, tg := t.callee(v)
 	switch kind {
+	case ckClosure:
+		t.bad(v, "call of a local closure inside an expression (only `x, y := f(…)` is inlined)")
 	case ckErrCtor:
 		return "true"
 	case ckConv:
